@@ -181,6 +181,9 @@ def parseDocWith (ev : Env) (strict : Bool) (s : Str) : Except XErr (IDoc × Str
   | .fuel => .error .fuel
   | .fail => .error .syntax
   | .ok (.node _ c) rest =>
+      -- the recursion-depth guard of `element`: an element nested deeper than the limit fails, and
+      -- with it every enclosing element and the document
+      if maxDepth_element != 0 && c.elemDepth > maxDepth_element then .error .syntax else
       (match absDocument c with
        | .error e => .error e
        | .ok d => match checkDoc d with
